@@ -32,11 +32,13 @@ pub struct Opts {
     /// cap for flipping a decision that obligations depend on (witnesses of feasible sides are found in seconds;
     /// proving a side infeasible can be as hard as any obligation and is given up earlier in the quick tier)
     pub flip_timeout_s: u64,
+    /// also try reduced-width candidates for branch sides no full-width query reaches (thorough tier)
+    pub narrow_flips: bool,
 }
 
 impl Default for Opts {
     fn default() -> Self {
-        Opts { seed: 0, timeout_s: 30, max_paths: 20000, simplify: true, verbose: false, budget_s: 1.0e9, strict_unexplored: false, late_timeout_s: 2, threads: 4, flip_timeout_s: 30 }
+        Opts { seed: 0, timeout_s: 30, max_paths: 20000, simplify: true, verbose: false, budget_s: 1.0e9, strict_unexplored: false, late_timeout_s: 2, threads: 4, flip_timeout_s: 30, narrow_flips: false }
     }
 }
 
@@ -85,6 +87,8 @@ pub struct UnitStats {
     pub flips_late_unknown: usize,
     /// flipped sides whose witness came from the pool of earlier witnesses / simple mutations (no query)
     pub flips_pool: usize,
+    /// flipped sides whose witness came from a reduced-width query and reproduced in binary32
+    pub flips_narrow: usize,
     pub truncated: bool,
     pub ob_total: usize,
     pub ob_identity: usize,
@@ -94,6 +98,14 @@ pub struct UnitStats {
     pub lemmas_used: BTreeMap<String, u64>,
     pub ob_violated: usize,
     pub ob_undecided: usize,
+    /// of the undecided ones: hold over the reduced-width float format
+    pub ob_reduced_width: usize,
+    pub narrow_queries: u64,
+    pub narrow_unsat: u64,
+    pub narrow_sat: u64,
+    pub narrow_time_s: f64,
+    pub narrow_cross_checked: u64,
+    pub narrow_cross_disagree: u64,
     pub solver_queries: u64,
     pub solver_cache_hits: u64,
     pub solver_unsat: u64,
@@ -192,12 +204,17 @@ pub struct Explorer {
     pub solver: Solver,
     /// number of leading decisions used by the last solver-decided formula
     last_prefix: usize,
+    /// phase 3: the reduced-width fall-back is consulted for what full width gave up on
+    narrow_now: bool,
+    /// other assignments that follow the current path (see `make_variants`); None: not computed yet for this path
+    variants: Option<Vec<(StdMap<String, u32>, Vec<f32>)>>,
+    pool_snapshot: Vec<StdMap<String, u32>>,
 }
 
 impl Explorer {
     pub fn new(opts: Opts) -> Explorer {
         let solver = Solver::new(opts.timeout_s);
-        Explorer { opts, solver, last_prefix: 0 }
+        Explorer { opts, solver, last_prefix: 0, narrow_now: false, variants: None, pool_snapshot: vec![] }
     }
 
     /// A witness for `PC[0..i) ∧ ¬atom_i` among earlier witnesses of the unit and simple mutations of
@@ -249,6 +266,116 @@ impl Explorer {
                         return Some(m);
                     }
                 }
+            }
+        }
+        None
+    }
+
+    /// Cheap counterexample candidates for the obligations the proof rungs leave open: assignments that follow the
+    /// same path as the witness (domains and the whole path condition hold when re-evaluated on the DAG) — earlier
+    /// witnesses of the unit, one input set to a multiple of another or to an end of its domain, and a seeded
+    /// pseudo-random draw.  They can only *refute* (a refuting one is replayed natively like any solver model);
+    /// "holds" still comes from identity, lemmas or the solver alone.
+    fn make_variants(&mut self, c: &Ctx) {
+        let mut out: Vec<(StdMap<String, u32>, Vec<f32>)> = vec![];
+        let vars: Vec<&dag::VarInfo> = c.vars.iter().filter(|v| v.dom != Dom::AnyBits).collect();
+        if vars.is_empty() {
+            self.variants = Some(out);
+            return;
+        }
+        let mut cands: Vec<StdMap<String, u32>> = vec![];
+        for w in self.pool_snapshot.iter().rev().take(24) {
+            let mut m = c.witness.clone();
+            for (k, v) in w {
+                if m.contains_key(k) {
+                    m.insert(k.clone(), *v);
+                }
+            }
+            cands.push(m);
+        }
+        let cur = |v: &dag::VarInfo| c.val[v.node as usize];
+        if vars.len() <= 12 {
+            for a in &vars {
+                for b in &vars {
+                    if a.name == b.name {
+                        continue;
+                    }
+                    for f in [1.0f32, 0.5, 2.0, 0.8, 1.25] {
+                        let mut m = c.witness.clone();
+                        m.insert(a.name.clone(), (cur(b) * f).to_bits());
+                        cands.push(m);
+                    }
+                }
+            }
+        }
+        for a in &vars {
+            let mut vs = vec![cur(a) * 0.5, cur(a) * 2.0, cur(a) * 1.1, cur(a) * 0.9, cur(a) * 16.0, cur(a) / 16.0];
+            if a.lo.is_finite() {
+                vs.push(a.lo);
+            }
+            if a.hi.is_finite() {
+                vs.push(a.hi);
+            }
+            for x in vs {
+                let mut m = c.witness.clone();
+                m.insert(a.name.clone(), x.to_bits());
+                cands.push(m);
+            }
+        }
+        // seeded draws: every input log-uniform over (the moderate part of) its regime-restricted domain
+        let mut st: u64 = (self.opts.seed ^ 0x9e3779b97f4a7c15).wrapping_mul(0xbf58476d1ce4e5b9) | 1;
+        let mut next = move || {
+            st ^= st << 13;
+            st ^= st >> 7;
+            st ^= st << 17;
+            (st >> 11) as f64 / (1u64 << 53) as f64
+        };
+        for _ in 0..64 {
+            let mut m = c.witness.clone();
+            for a in &vars {
+                let x = cur(a);
+                if x == 0.0 {
+                    continue;
+                }
+                let (lo, hi) = if x > 0.0 { (a.lo.max(1.0e-2), a.hi.min(1.0e4)) } else { (a.lo.max(-1.0e4), a.hi.min(-1.0e-2)) };
+                if !(lo < hi) {
+                    continue;
+                }
+                let u = next();
+                let y = if x > 0.0 { ((lo as f64).ln() + u * ((hi as f64).ln() - (lo as f64).ln())).exp() } else { -(((-hi) as f64).ln() + u * (((-lo) as f64).ln() - ((-hi) as f64).ln())).exp() };
+                m.insert(a.name.clone(), (y as f32).to_bits());
+            }
+            cands.push(m);
+        }
+        for m in cands {
+            if out.len() >= 256 {
+                break;
+            }
+            let vals = c.eval_all(&m);
+            let g = |x: dag::Arg| match x {
+                dag::Arg::K(b) => f32::from_bits(b),
+                dag::Arg::N(j) => vals[j as usize],
+            };
+            let in_dom = c.vars.iter().all(|v| {
+                let x = vals[v.node as usize];
+                v.dom == Dom::AnyBits || (x >= v.lo && x <= v.hi) || (v.zero_ok && x == 0.0 && x.is_sign_positive())
+            });
+            if in_dom && c.trace.iter().all(|t| dag::apply_cmp(t.cmp, g(t.a), g(t.b)) == t.side) {
+                out.push((m, vals));
+            }
+        }
+        self.variants = Some(out);
+    }
+
+    /// A same-path assignment under which the (folded) formula is false.
+    fn variant_cex(&mut self, c: &Ctx, f: &Bx) -> Option<BTreeMap<String, String>> {
+        if self.variants.is_none() {
+            self.make_variants(c);
+        }
+        let folded = f.fold_identity(c);
+        for (m, vals) in self.variants.as_ref().unwrap() {
+            if !folded.eval(c, Some(vals)) {
+                return Some(hexmap(m));
             }
         }
         None
@@ -325,7 +452,33 @@ impl Explorer {
                     )
                 }
             }
-            Verdict::Unknown(why) => ("undecided", "solver-unknown".into(), None, Some(why)),
+            Verdict::Unknown(why) => {
+                // no back end decided it at full width: the same query over the reduced-width format.  A narrow
+                // model is only a candidate (kept if it reproduces in binary32 on the DAG); a narrow `unsat` is
+                // reported as what it is, a verdict about the narrow arithmetic
+                let nv = if self.narrow_now { self.solver.check_narrow(&q) } else { Verdict::Unknown(String::new()) };
+                match nv {
+                    Verdict::Sat(model) if model.len() == q.vars.len() => {
+                        let mut w = c.witness.clone();
+                        for (i, bits) in model.iter().enumerate() {
+                            w.insert(q.vars[i].clone(), *bits);
+                        }
+                        let vals = c.eval_all(&w);
+                        let g = |x: dag::Arg| match x {
+                            dag::Arg::K(b) => f32::from_bits(b),
+                            dag::Arg::N(i) => vals[i as usize],
+                        };
+                        let pc_ok = c.trace.iter().all(|d| dag::apply_cmp(d.cmp, g(d.a), g(d.b)) == d.side);
+                        if pc_ok && !folded.eval(c, Some(&vals)) {
+                            ("violated", "solver-cex(reduced-width candidate, reproduced in binary32)".into(), Some(hexmap(&w)), None)
+                        } else {
+                            ("undecided", "reduced-width:sat-not-reproduced".into(), None, Some(format!("{}; at reduced width a model exists that is not a binary32 counterexample", why)))
+                        }
+                    }
+                    Verdict::Unsat => ("undecided", "reduced-width:unsat".into(), None, Some(format!("{}; holds over the reduced-width format (8 exponent, {} significand bits)", why, self.solver.narrow_sb))),
+                    _ => ("undecided", "solver-unknown".into(), None, Some(why)),
+                }
+            }
         }
     }
 
@@ -343,11 +496,22 @@ impl Explorer {
                 return ObReport { name: ob.name.clone(), verdict: "holds".into(), how: format!("lemma:{}+{}", lemma, how), time_s: t0.elapsed().as_secs_f64(), cex: None, detail: None, prefix: self.last_prefix };
             }
             if v == "pending" && !structural {
+                if let Some(cex) = self.variant_cex(c, &ob.direct) {
+                    return ObReport { name: ob.name.clone(), verdict: "violated".into(), how: "witness-variant".into(), time_s: t0.elapsed().as_secs_f64(), cex: Some(cex), detail: Some(ob.direct.fold_identity(c).show(c, 6).chars().take(700).collect()), prefix: c.trace.len() };
+                }
                 return ObReport { name: ob.name.clone(), verdict: "pending".into(), how: "pending".into(), time_s: 0.0, cex: None, detail: None, prefix: ob.direct.bound(c).max(prem.bound(c)).min(c.trace.len()) };
             }
         }
         self.last_prefix = ob.direct.bound(c).min(c.trace.len());
-        let (v, how, cex, mut detail) = self.ladder(c, &ob.direct, !cheap);
+        let (mut v, mut how, mut cex, mut detail) = self.ladder(c, &ob.direct, !cheap);
+        if v == "pending" && cheap {
+            if let Some(x) = self.variant_cex(c, &ob.direct) {
+                v = "violated";
+                how = "witness-variant".into();
+                cex = Some(x);
+                self.last_prefix = c.trace.len();
+            }
+        }
         if v != "holds" && v != "pending" {
             // the formula itself (depth-limited) is the explanation of what differs
             let f = ob.direct.fold_identity(c).show(c, 6);
@@ -394,6 +558,8 @@ impl Explorer {
             let idx = paths.len();
             let mut obs = vec![];
             let mut pending: Vec<usize> = vec![];
+            self.variants = None;
+            self.pool_snapshot = pool.iter().rev().take(24).cloned().collect();
             for (oi, ob) in ctx.obs.iter().enumerate() {
                 let r = self.decide_ob(&ctx, ob, true);
                 if r.verdict == "pending" {
@@ -500,7 +666,36 @@ impl Explorer {
                                 stats.flips_sat += 1;
                                 work.push((w, i + 1));
                             }
-                            Verdict::Unknown(why) => {
+                            Verdict::Unknown(mut why) => {
+                                if !late && self.opts.narrow_flips {
+                                    // reduced-width candidate for the other side of the branch
+                                    match self.solver.check_narrow(&q) {
+                                        Verdict::Sat(model) if model.len() == q.vars.len() => {
+                                            let mut w = ctx.witness.clone();
+                                            for (k, bits) in model.iter().enumerate() {
+                                                w.insert(q.vars[k].clone(), *bits);
+                                            }
+                                            let vals = ctx.eval_all(&w);
+                                            let g = |x: dag::Arg| match x {
+                                                dag::Arg::K(b) => f32::from_bits(b),
+                                                dag::Arg::N(j) => vals[j as usize],
+                                            };
+                                            let in_dom = ctx.vars.iter().all(|v| {
+                                                let x = vals[v.node as usize];
+                                                v.dom == Dom::AnyBits || (x >= v.lo && x <= v.hi) || (v.zero_ok && x == 0.0 && x.is_sign_positive())
+                                            });
+                                            if in_dom && ctx.trace[..i].iter().all(|t| dag::apply_cmp(t.cmp, g(t.a), g(t.b)) == t.side) && dag::apply_cmp(d.cmp, g(d.a), g(d.b)) != d.side {
+                                                stats.flips_sat += 1;
+                                                stats.flips_narrow += 1;
+                                                work.push((w, i + 1));
+                                                continue;
+                                            }
+                                            why = format!("{}; reduced-width model does not reproduce in binary32", why);
+                                        }
+                                        Verdict::Unsat => why = format!("{}; infeasible over the reduced-width format", why),
+                                        _ => {}
+                                    }
+                                }
                                 if late {
                                     stats.flips_late_unknown += 1;
                                     if stats.unexplored_benign.len() < 50 {
@@ -578,6 +773,24 @@ impl Explorer {
                 paths[*idx].pc = ctx.trace.iter().map(|d| fmt_atom(ctx, d)).collect();
             }
         }
+        // phase 3: what every full-width back end gave up on is asked once more over the reduced-width format,
+        // within an extra quarter of the unit's budget (the full-width query is answered by the gave-up cache)
+        if self.solver.narrow_timeout_s > 0 {
+            self.narrow_now = true;
+            let t3 = Instant::now();
+            'outer: for (idx, ctx, pending) in &later {
+                for &oi in pending {
+                    if t3.elapsed().as_secs_f64() > 0.25 * self.opts.budget_s {
+                        break 'outer;
+                    }
+                    if paths[*idx].obs[oi].verdict == "undecided" && paths[*idx].obs[oi].how == "solver-unknown" {
+                        let r = self.decide_ob(ctx, &ctx.obs[oi], false);
+                        paths[*idx].obs[oi] = r;
+                    }
+                }
+            }
+            self.narrow_now = false;
+        }
         for p in &paths {
             for r in &p.obs {
                 stats.ob_total += 1;
@@ -591,6 +804,10 @@ impl Explorer {
                     ("holds", h) if h.starts_with("lemma:") && !h.contains("solver") => stats.ob_lemma += 1,
                     ("holds", _) => stats.ob_solver += 1,
                     ("violated", _) => stats.ob_violated += 1,
+                    (_, "reduced-width:unsat") => {
+                        stats.ob_undecided += 1;
+                        stats.ob_reduced_width += 1;
+                    }
                     _ => stats.ob_undecided += 1,
                 }
             }
@@ -607,6 +824,12 @@ impl Explorer {
         stats.cross_checked = q1.cross_checked - q0.cross_checked;
         stats.cross_disagree = q1.cross_disagree - q0.cross_disagree;
         stats.cbmc_decided = q1.cbmc_decided - q0.cbmc_decided;
+        stats.narrow_queries = q1.narrow_queries - q0.narrow_queries;
+        stats.narrow_unsat = q1.narrow_unsat - q0.narrow_unsat;
+        stats.narrow_sat = q1.narrow_sat - q0.narrow_sat;
+        stats.narrow_time_s = q1.narrow_time_s - q0.narrow_time_s;
+        stats.narrow_cross_checked = q1.narrow_cross_checked - q0.narrow_cross_checked;
+        stats.narrow_cross_disagree = q1.narrow_cross_disagree - q0.narrow_cross_disagree;
         stats.wall_s = t0.elapsed().as_secs_f64();
         UnitReport { unit: unit.to_string(), stats, paths }
     }
